@@ -484,10 +484,9 @@ def run_universe(ukey):
     rep.stats["spec_states"] = len(u["looks"])
     rep.stats["spec_transitions"] = sum(len(v) for v in u["trans"].values())
     if G["level"] == "aln":
-        both = G["tier"] == "thorough"
+        # Alignment.add_feature and a hand-filled database differ only in who writes the rows: alternate by universe
         pick = (zlib.crc32(ukey.encode()) ^ G["seed"]) % 2
-        for mode in ("add", "db") if both else (("add", "db")[pick],):
-            A.check_variant(rep, G, mode, ukey, u)
+        A.check_variant(rep, G, ("add", "db")[pick], ukey, u)
         return rep.dump()
     for kind in I.KINDS:
         for mode in modes_for(u, ukey):
